@@ -383,4 +383,50 @@ example : handle asWritten deps0 ⟨true, []⟩ ⟨.get, sStatus, none, some sGz
     ∧ handle asWritten deps0 ⟨false, []⟩ ⟨.get, sStatus, none, some sGzip⟩ = .ok r200
     ∧ handle asWritten deps0 ⟨true, []⟩ ⟨.get, sStatus, none, some [98, 114]⟩ = .ok r200 := by decide
 
+/-! ### Long values
+
+Nothing in the model depends on the *length* of a path, a parameter name, a parameter value or a
+header value: the reason text of a 400 is abstracted to "non-empty" (`Resp.reason`) and the helper
+that builds it (`api.rs` `fn err`, the `format!` texts of the RIB / router-list code) is taken to
+answer for every message. That is an assumption the correspondence engine has to exercise, so the
+engine sends, for every place a request carries text, values of 63 … 4097 bytes and up to 16 KiB made
+of 1- to 4-byte characters at every alignment. The theorem below states the mrt clause for them
+explicitly: a `file` value the file system does not place inside the update directory is answered
+400 with a reason, whatever its bytes and however long it is. -/
+
+/-- **C12 (unusable `file` value, any length).** -/
+theorem C12_mrt_unusable_file_400 (v : Variant) (d : Deps) (reg : Registry) (req : Req) (r : Resp)
+    (base f : Bytes)
+    (hm : req.method = .get)
+    (hfixed : ¬ (decodedPath req.path = sMetrics ∨ decodedPath req.path = sStatus))
+    (hfirst : reg.procs.find? (·.claims (decodedPath req.path)) = some (.mrt base true))
+    (hfile : getParam sFile (params req) = some (.exact f))
+    (hbad : d.fs f ≠ .inside)
+    (h : handle v d reg req = .ok r) : r.status = 400 ∧ r.reason = true := by
+  have hs := C12_status_law v d reg req r h
+  have : r.status = 400 := by
+    rw [hs.1]
+    unfold specStatus
+    simp only [hm, hfixed, if_false, hfirst]
+    have : mrtFileOk d (params req) = false := by
+      unfold mrtFileOk
+      rw [hfile]
+      cases hfs : d.fs f <;> simp_all
+    simp [Proc.malformed, this]
+  exact ⟨this, hs.2 this⟩
+
+/-- non-vacuity, for every length: `file=` followed by `n` three-byte characters (`€`, percent-encoded
+    on the wire, here as the parser hands them on) is an `Exact` parameter with that value -/
+example (n : Nat) :
+    getParam sFile [⟨sFile, (List.replicate n [226, 130, 172]).flatten⟩]
+      = some (.exact (List.replicate n [226, 130, 172]).flatten) := by
+  simp [getParam, matchParam, splitBrackets, sFile, isBracket]
+
+set_option maxRecDepth 200000 in
+example :
+    let reg : Registry := ⟨false, [.tracer, .graph false, .mrt [47, 109, 47] true]⟩
+    -- GET /m/queue?file=%E2%82%AC%E2%82%AC… (100 characters, 300 bytes), nothing of that name on disk
+    let q : Bytes := sFile ++ [61] ++ (List.replicate 100 [37, 69, 50, 37, 56, 50, 37, 65, 67]).flatten
+    handle asWritten deps0 reg ⟨.get, [47, 109, 47] ++ sQueue, some q, none⟩ = .ok r400 := by decide
+
 end Rotonda.Http
